@@ -750,7 +750,7 @@ def monitors(ctx: fw.Ctx, res: Result, tr: Translation) -> None:
                 ctx.fail('the ready flag was raised before a startup handler had finished', case, observed=c['handler'], sig='ready-before-startup')
     elif startup_ok and not (trig['kind'] in ('stop', 'cancel') and trig.get('at', 0) <= (st_end[0]['t'] if st_end else 0)):
         ctx.fail('startup succeeded but the ready flag was never raised', case, sig='never-ready')
-    if expect_startup_fail and not (trig['kind'] in ('stop', 'cancel') and trig.get('at', 0) < 3):
+    if expect_startup_fail and not (trig['kind'] in ('stop', 'cancel') and trig.get('at', 0) < 10):
         exc = res.inc.exception if res.inc else None
         if not res.exited or res.forced or type(exc).__name__ != 'ActivityError':
             ctx.fail('a failed startup did not abort the operator with the failure', case,
@@ -762,12 +762,15 @@ def monitors(ctx: fw.Ctx, res: Result, tr: Translation) -> None:
 
     # --- an essential task failed: the whole operator must shut down and re-raise
     if res.injected in ('root500', 'crd_error', 'stream_error', 'worker_raise', 'keepalive_fail') and not expect_startup_fail:
-        if res.lingered is not None:
+        failed_before = [task_label(e['task']) + ':' + type(e['exc']).__name__ for e in res.events
+                         if e['ev'] == 'done' and e['out'] == 'err' and (res.trigger_order is None or e['order'] < res.trigger_order)]
+        if res.lingered is not None and not failed_before:
+            ctx.count('observed', 'injection-had-no-effect')      # e.g. the stream was paused: nothing failed, nothing to stop for
+        elif res.lingered is not None:
             ctx.fail('an essential task failed but the operator keeps running half-alive', case,
                      observed={'failed': res.injected, 'still_running_after_s': res.lingered,
                                'later_object_handled': res.later_object_handled,
-                               'tasks_failed': [task_label(e['task']) + ':' + type(e['exc']).__name__ for e in res.events
-                                                if e['ev'] == 'done' and e['out'] == 'err']},
+                               'tasks_failed': failed_before},
                      expected='kopf.operator() returns (re-raising) within the grace periods', sig='lingers-after-task-failure')
         else:
             exc = res.inc.exception if res.inc else None
